@@ -33,10 +33,11 @@ import (
 // fake MessageNetwork whose faults are environment choices of the explorer.
 
 type mqOp struct {
-	K    string `json:"k"`           // "req" | "blk" | "ext" | "fin" | "C" | "D"
-	Req  int    `json:"r,omitempty"` // request number (response stream) for blk/ext/fin
-	Size int    `json:"s,omitempty"`
-	Same bool   `json:"same,omitempty"` // blk: shared content (the same block for every request)
+	K      string `json:"k"`                 // "req" | "blk" | "ext" | "fin" | "C" | "D"
+	AtDial int    `json:"at_dial,omitempty"` // D only: issued while the n-th dial of the queue is in flight
+	Req    int    `json:"r,omitempty"`       // request number (response stream) for blk/ext/fin
+	Size   int    `json:"s,omitempty"`
+	Same   bool   `json:"same,omitempty"` // blk: shared content (the same block for every request)
 }
 
 func (o mqOp) String() string {
@@ -47,6 +48,9 @@ func (o mqOp) String() string {
 		return fmt.Sprintf("%s(r%d,%d)", o.K, o.Req, o.Size)
 	case "fin":
 		return fmt.Sprintf("fin(r%d)", o.Req)
+	}
+	if o.AtDial > 0 {
+		return fmt.Sprintf("%s@dial%d", o.K, o.AtDial)
 	}
 	return o.K
 }
@@ -151,6 +155,8 @@ type mqWorld struct {
 	reservedNotBuilt        uint64 // bytes reserved for a build that then added nothing
 	release                 chan struct{}
 	sends                   int
+	dials                   int
+	dialCh                  map[int]chan struct{}
 }
 
 type mqBInfo struct {
@@ -186,6 +192,10 @@ type mqNet struct {
 }
 
 func (n *mqNet) ConnectTo(ctx context.Context, p peer.ID) error {
+	n.w.dials++
+	if ch, ok := n.w.dialCh[n.w.dials]; ok {
+		close(ch) // a driver waits for this dial to be in flight
+	}
 	vsched.Yield() // the dial is in flight: anything may happen before it resolves
 	if n.w.sc.Faults && n.w.faults < n.w.sc.MaxFaults {
 		if vsched.Choose(2) == 1 {
@@ -361,7 +371,14 @@ func mqRun(cfg vsched.Config, sc mqScenario) (*mqObs, *vsched.Sched) {
 		if per == 0 {
 			per = 1 << 30
 		}
-		w := &mqWorld{sc: sc, subs: map[string]*mqSub{}, binfo: map[*messagequeue.Builder]*mqBInfo{}, release: make(chan struct{})}
+		w := &mqWorld{sc: sc, subs: map[string]*mqSub{}, binfo: map[*messagequeue.Builder]*mqBInfo{}, release: make(chan struct{}), dialCh: map[int]chan struct{}{}}
+		for _, t := range sc.Threads {
+			for _, o := range t {
+				if o.AtDial > 0 {
+					w.dialCh[o.AtDial] = make(chan struct{})
+				}
+			}
+		}
 		w.alloc = allocator.NewAllocator(1<<30, per)
 		alloc := &mqAlloc{w, w.alloc}
 		pmm := peermanager.NewMessageManager(ctx, func(ctx context.Context, p peer.ID, onShutdown func(peer.ID)) peermanager.PeerQueue {
@@ -434,6 +451,9 @@ func mqRun(cfg vsched.Config, sc mqScenario) (*mqObs, *vsched.Sched) {
 					case "C":
 						pmm.Connected(mqPeer)
 					case "D":
+						if o.AtDial > 0 {
+							<-w.dialCh[o.AtDial]
+						}
 						pmm.Disconnected(mqPeer)
 					case "req":
 						id := mqReqID(9, ti, n)
@@ -467,8 +487,29 @@ func mqRun(cfg vsched.Config, sc mqScenario) (*mqObs, *vsched.Sched) {
 				done <- struct{}{}
 			}()
 		}
-		for range sc.Threads {
+		nGated := 0
+		for _, t := range sc.Threads {
+			for _, o := range t {
+				if o.AtDial > 0 {
+					nGated++
+					break
+				}
+			}
+		}
+		for i := 0; i < len(sc.Threads)-nGated; i++ {
 			<-done
+		}
+		if nGated > 0 {
+			// a driver waiting for a dial that never came acts once everything else has settled
+			vsched.Quiesce()
+			for n, ch := range w.dialCh {
+				if n > w.dials {
+					close(ch)
+				}
+			}
+			for i := 0; i < nGated; i++ {
+				<-done
+			}
 		}
 		close(w.release)
 		vsched.Quiesce()
@@ -763,6 +804,9 @@ func mqScenariosC17(thorough bool) []mqScenario {
 		{Name: "C17.pre-d-vs-3req-faults", Threads: [][]mqOp{{{K: "D"}}, {req, req, req}}, Retries: 1, PreConn: true, Faults: true, MaxFaults: 2},
 		{Name: "C17.cd-vs-req-vs-req", Threads: [][]mqOp{{{K: "C"}, {K: "D"}}, {req, req}, {req}}, Retries: 1},
 		{Name: "C17.ccdd-vs-2req-faults", Threads: [][]mqOp{{{K: "C"}, {K: "C"}, {K: "D"}, {K: "D"}}, {req, req}}, Retries: 2, Faults: true, MaxFaults: 2},
+		// several builders pile up behind a stalled first send that then fails: what is left must still leave in build order
+		{Name: "C17.held-first-send-fails-4-builders", Threads: [][]mqOp{{{K: "blk", Req: 1, Size: 300 * 1024}, {K: "Q"}, {K: "blk", Req: 1, Size: 300 * 1024}, {K: "blk", Req: 2, Size: 300 * 1024}, {K: "blk", Req: 3, Size: 300 * 1024}}}, Retries: 1, Faults: true, MaxFaults: 1, PreConn: true, Hold: true},
+		{Name: "C17.held-first-send-fails-5-builders", Threads: [][]mqOp{{{K: "blk", Req: 1, Size: 300 * 1024}, {K: "Q"}, {K: "blk", Req: 2, Size: 300 * 1024}, {K: "blk", Req: 1, Size: 300 * 1024}, {K: "blk", Req: 3, Size: 300 * 1024}, {K: "blk", Req: 4, Size: 300 * 1024}}}, Retries: 1, Faults: true, MaxFaults: 1, PreConn: true, Hold: true},
 	}
 	// every single-threaded operation sequence over {Connected, Disconnected, send} up to
 	// length 4 (length 5 thorough), with connect/send failures as environment choices
@@ -819,6 +863,10 @@ func mqScenariosC16(thorough bool) []mqScenario {
 		{Name: "C16.req-vs-d-faults", Threads: [][]mqOp{{req, req}, {{K: "D"}}}, Retries: 1, PreConn: true, Faults: true, MaxFaults: 1, Bound: 3},
 		{Name: "C16.resp-vs-d-faults", Threads: [][]mqOp{{blk(1, 10), fin(1)}, {{K: "D"}}}, Retries: 2, PreConn: true, Faults: true, MaxFaults: 2},
 		{Name: "C16.2resp-2threads-faults", Threads: [][]mqOp{{blk(1, 10), fin(1)}, {blk(2, 10), fin(2)}}, Retries: 1, Faults: true, MaxFaults: 2, PreConn: true},
+		// the disconnect lands while the queue re-dials after a failed send
+		{Name: "C16.resp-vs-d-at-redial-faults", Threads: [][]mqOp{{blk(1, 10), fin(1)}, {{K: "D", AtDial: 2}}}, Retries: 2, PreConn: true, Faults: true, MaxFaults: 1},
+		{Name: "C16.req-vs-d-at-redial-faults", Threads: [][]mqOp{{req, req}, {{K: "D", AtDial: 2}}}, Retries: 3, PreConn: true, Faults: true, MaxFaults: 2},
+		{Name: "C16.resp-vs-d-at-first-dial", Threads: [][]mqOp{{blk(1, 10), fin(1)}, {{K: "D", AtDial: 1}}}, Retries: 2, PreConn: true, Faults: true, MaxFaults: 1},
 	}
 	if thorough {
 		scs = append(scs,
